@@ -335,7 +335,7 @@ Proof.
       eapply (completion_choose_fresh_names _ "V"); [discriminate|exact Hx].
 Qed.
 
-(* the empty completed definitions appended for the missing output predicates (/repo <COMMIT-F17>) *)
+(* the empty completed definitions appended for the missing output predicates (/repo 70e6ace) *)
 Lemma empty_definition_pi q : parser_image (External.empty_definition q).
 Proof.
   unfold External.empty_definition. apply complete_definition_pi; [|intros F []].
